@@ -25,7 +25,8 @@
 (***************************************************************************)
 EXTENDS Integers, Sequences, FiniteSets, TLC
 
-CONSTANTS PinnedParent, PinnedFind, PinnedProducer
+CONSTANTS PinnedParent, PinnedFind, PinnedProducer,
+          PinnedPartialOnly    \* fetch_parent_die unwinds the import chain only at DW_TAG_partial_unit roots (before fix 5)
 
 -----------------------------------------------------------------------------
 (* helpers *)
@@ -87,7 +88,8 @@ RECURSIVE CookedParent(_, _)
 CookedParent(F, v) ==
     LET p == RawParent(F, v.d) IN
     IF p = 0 THEN <<>>
-    ELSE IF Die(F, p).tag = "pu" /\ Len(v.ch) > 0
+    \* p is the root of an imported unit (a partial unit, or a normal one: DW_AT_import may name either)
+    ELSE IF RawParent(F, p) = 0 /\ Len(v.ch) > 0
     THEN CookedParent(F, CD(Head(v.ch), Tail(v.ch)))      \* continue from the import point
     ELSE <<CD(p, v.ch)>>
 RECURSIVE CookedRoot(_, _)
@@ -188,7 +190,7 @@ ProducerEntries(F) ==
 RECURSIVE FetchParentLoop(_, _)
 FetchParentLoop(F, a) ==      \* a: cooked value; returns [p: raw parent id, a: the value we ended at]
     LET p == RawParent(F, a.d) IN
-    IF p # 0 /\ Die(F, p).tag = "pu" /\ Len(a.ch) > 0
+    IF p # 0 /\ (IF PinnedPartialOnly THEN Die(F, p).tag = "pu" ELSE RawParent(F, p) = 0) /\ Len(a.ch) > 0
     THEN FetchParentLoop(F, CD(Head(a.ch), Tail(a.ch)))
     ELSE [p |-> p, a |-> a]
 FetchParent(F, v) ==
